@@ -67,9 +67,20 @@ static void check_frame(const uni::Spec & spec, const std::set<uint32_t> & pad, 
     else if (auto * h2 = dynamic_cast<ObjectHeader2 *>(o.get())) { hb = reinterpret_cast<const char *>(h2); hsz = sizeof(ObjectHeader2); }
     else if (auto * hv = dynamic_cast<VarObjectHeader *>(o.get())) { hb = reinterpret_cast<const char *>(hv); hsz = sizeof(VarObjectHeader); }
     size_t hdr_bytes = 0;
-    for (auto & c : mf.chunks) {
-        const char * s = (const char *)c.src;
-        if (s >= hb && s < hb + hsz) hdr_bytes += c.len;
+    bool layout_known = false;   /* false when the encoder serialises through temporaries: the layout map cannot attribute bytes then */
+    {
+        const char * ob0 = reinterpret_cast<const char *>(o.get());
+        for (auto & c : mf.chunks) {
+            const char * s = (const char *)c.src;
+            if (s >= hb && s < hb + hsz) hdr_bytes += c.len;
+            if (s >= ob0 && s < ob0 + spec.cls->size) layout_known = true;
+        }
+    }
+    if (!layout_known) {
+        /* fall back to the size the format assigns to this header kind */
+        hdr_bytes = headerSize;
+        size_t want_hdr = dynamic_cast<ObjectHeader2 *>(o.get()) ? 40 : (dynamic_cast<ObjectHeader *>(o.get()) || dynamic_cast<VarObjectHeader *>(o.get())) ? 32 : 16;
+        if (headerSize != want_hdr) report("C03", sk + "|headerSize", "headerSize field " + std::to_string(headerSize) + " but this header kind has " + std::to_string(want_hdr) + " bytes", lab);
     }
     if (hdr_bytes != headerSize)
         report("C03", sk + "|headerSize", "headerSize field " + std::to_string(headerSize) + " but " + std::to_string(hdr_bytes) + " header bytes emitted", lab);
@@ -97,7 +108,7 @@ static void check_frame(const uni::Spec & spec, const std::set<uint32_t> & pad, 
         for (auto & c : mf.chunks) if (c.src == p) return &c;
         return nullptr;
     };
-    {
+    if (layout_known) {
         /* C14: bytes that come from neither a member nor a container (alignment padding, union filler) are zero */
         const char * ob = reinterpret_cast<const char *>(o.get());
         for (auto & c : mf.chunks) {
@@ -150,8 +161,9 @@ static void check_frame(const uni::Spec & spec, const std::set<uint32_t> & pad, 
             for (auto & c : mf.chunks) { const char * s = (const char *)c.src; if (s >= (const char *)a && s < (const char *)a + (n ? n : 1)) return true; }
             return false;
         };
-        for (auto & sc : l.scalars) { g_allfields[spec.cls->name].insert(sc.path); if (inside(sc.addr, sc.size)) ser.insert(sc.path); }
-        for (auto & v : l.vars) { g_allfields[spec.cls->name].insert(v.path); if (v.count == 0 || inside(v.data, v.count * v.elem)) ser.insert(v.path); }
+        for (auto & sc : l.scalars) { if (layout_known) g_allfields[spec.cls->name].insert(sc.path); if (!layout_known || inside(sc.addr, sc.size)) ser.insert(sc.path); }
+        for (auto & v : l.vars) { if (layout_known) g_allfields[spec.cls->name].insert(v.path); if (!layout_known || v.count == 0 || inside(v.data, v.count * v.elem)) ser.insert(v.path); }
+        if (!layout_known) { ser.erase("apiMajor"); for (auto it = ser.begin(); it != ser.end();) it = (it->find("_present") != std::string::npos) ? ser.erase(it) : std::next(it); }
         for (auto & s : ser) g_serialised[spec.cls->name].insert(s);
         std::string df = rv::diff(d1, d2, [&](const std::string & p) {
             std::string q = p;
